@@ -43,10 +43,19 @@ def build(need_harness=False, need_shim=True):
                 return err
         if need_harness:
             t = time.time()
-            hdir = os.path.join(VERIF, "harness")
-            shutil.copyfile(os.path.join(REPO, "Cargo.lock"), os.path.join(hdir, "Cargo.lock.repo"))
+            hsrc = os.path.join(VERIF, "harness")
+            hdir = os.path.join(W.BUILD, "harness")          # generated crate dir (Cargo.toml points at the repository under test)
+            os.makedirs(hdir, exist_ok=True)
+            toml = open(os.path.join(hsrc, "Cargo.toml.in")).read().replace("@REPO@", REPO)
+            if not os.path.exists(os.path.join(hdir, "Cargo.toml")) or open(os.path.join(hdir, "Cargo.toml")).read() != toml:
+                open(os.path.join(hdir, "Cargo.toml"), "w").write(toml)
+            if os.path.islink(os.path.join(hdir, "src")) or not os.path.exists(os.path.join(hdir, "src")):
+                if os.path.islink(os.path.join(hdir, "src")):
+                    os.remove(os.path.join(hdir, "src"))
+                os.symlink(os.path.join(hsrc, "src"), os.path.join(hdir, "src"))
+            shutil.copyfile(os.path.join(REPO, "Cargo.lock"), os.path.join(hdir, "Cargo.lock"))
             env["CARGO_TARGET_DIR"] = os.path.join(W.BUILD, "harness-target")
-            p = subprocess.run(["cargo", "build", "--offline", "--release"], cwd=hdir, env=env, stdout=subprocess.PIPE, stderr=subprocess.STDOUT)
+            p = subprocess.run(["cargo", "build", "--offline"], cwd=hdir, env=env, stdout=subprocess.PIPE, stderr=subprocess.STDOUT)
             if p.returncode != 0:
                 return "cargo build of harness failed:\n" + p.stdout.decode("utf-8", "replace")[-3000:]
             log("[build] harness ok in %.1fs" % (time.time() - t))
@@ -67,6 +76,17 @@ def build_shim():
         return "cc gitshim failed: " + p.stdout.decode()
     os.replace(out + ".tmp", out)
     return None
+
+
+PROBE = os.path.join(W.BUILD, "harness-target", "debug", "probe")
+
+
+def run_probe(mode, seed, n, extra=(), timeout=600):
+    """Run the in-process harness; returns the parsed JSON object or raises."""
+    p = subprocess.run([PROBE, mode, str(seed), str(n)] + list(extra), stdout=subprocess.PIPE, stderr=subprocess.PIPE, timeout=timeout)
+    if p.returncode != 0:
+        raise RuntimeError("probe %s exited %d: %s" % (mode, p.returncode, p.stderr.decode("utf-8", "replace")[-600:]))
+    return json.loads(p.stdout.decode("utf-8", "replace").strip().split("\n")[-1])
 
 
 # --------------------------------------------------------------------------- known findings
